@@ -72,6 +72,12 @@ def cases(run: Run):
         dt = rng.choice([36, 36, 18, 72, 90, 180, 360, 9])
         k = rng.randint(1, 4800 if dt <= 36 else 900)
         out.append({"op": "cli", "t0": rand_instant(rng).isoformat(), "dt": dt, "k": k, "hours": repr(k * dt / 3600)})
+    # the epochs the real ScenarioClock lays out when it is built: spans that are, and mostly are NOT, a whole number of steps
+    for _ in range(run.n(120, 1500)):
+        dt = rng.choice([2, 5, 7, 10, 30, 45, 60, 60, 120, 300, 0.5, 1.5])
+        k = rng.randint(1, 120)
+        span = k * dt + rng.choice([0, 0, 1, dt / 2, dt - 0.25, 0.125])
+        out.append({"op": "clock", "t0": rand_instant(rng).isoformat(), "dt": float(dt), "span": float(span)})
     # consecutive run calls on one real scenario (truth only): every leg advances by its own floor(D/step), the recorded epochs are start + k*step
     for _ in range(run.n(1, 6)):
         dt = rng.choice([60, 60, 30, 7])
@@ -92,11 +98,19 @@ class _NullDB:
         return None
 
 
-def real_clock(start, span, dt):
+class _RecDB:
+    def __init__(self):
+        self.rows = []
+
+    def insertData(self, *a, **k):
+        self.rows.extend(a)
+
+
+def real_clock(start, span, dt, db=None):
     import resonaate.scenario.clock as clk
 
     old = clk.getDBConnection
-    clk.getDBConnection = lambda: _NullDB()
+    clk.getDBConnection = lambda: (db if db is not None else _NullDB())
     try:
         return clk.ScenarioClock(start, span, dt)
     finally:
@@ -128,6 +142,16 @@ def impl_case(c):
         jd = st.convertToJulianDate(jd0)
         back = SD.JulianDate(float(jd)).convertToScenarioTime(jd0)
         return {"jd0": float(jd0), "jd": float(jd), "back": float(back)}
+    if op == "clock":
+        t0 = datetime.fromisoformat(c["t0"])
+        db = _RecDB()
+        clock = real_clock(t0, c["span"], c["dt"], db)
+        rows = [(r.timestampISO, float(r.julian_date)) for r in db.rows]
+        ticks = []
+        for _ in range(min(int(c["span"] // c["dt"]), 40)):
+            clock.ticToc()
+            ticks.append((clock.datetime_epoch.isoformat(timespec="microseconds"), float(clock.julian_date_epoch), float(clock.time)))
+        return {"rows": rows, "ticks": ticks, "jd0": float(clock.julian_date_start)}
     if op == "run":
         from resonaate.scenario.scenario import Scenario
 
@@ -225,6 +249,9 @@ def model_lines(c, i):
         return [f"time.toJD {fmt(i['jd0'])} {fmt(c['t'])}", f"time.toSec {fmt(i['jd'])} {fmt(i['jd0'])}"]
     if op in ("cli", "legs"):
         return []
+    if op == "clock":
+        n = int(c["span"] // c["dt"])
+        return [f"time.toJD {fmt(i['jd0'])} {fmt(k * c['dt'])}" for k in range(min(n, 40) + 1)]
     if op == "run":
         t = datetime.fromisoformat(c["t0"])
         return [f"time.run nearest {t.year} {t.month} {t.day} {t.hour} {t.minute} {t.second} {c['D']} {c['dt']}", f"time.target nearest {fmt(i['jd0'])} {c['D']}"]
@@ -253,6 +280,12 @@ def compare(run, c, i, mo):
             return "convertToJulianDate bits differ"
         if Fraction(mo[1]) != frac(i["back"]):
             return "convertToScenarioTime bits differ"
+    elif op == "clock":
+        for k, m in enumerate(mo):
+            if k < len(i["rows"]) and Fraction(m) != frac(i["rows"][k][1]):
+                return f"stored epoch {k}: Julian date bits differ from convertToJulianDate(start, k*step): impl {i['rows'][k][1]!r} model {float(Fraction(m))!r}"
+            if 1 <= k <= len(i["ticks"]) and Fraction(m) != frac(i["ticks"][k - 1][1]):
+                return f"clock tick {k}: Julian date bits differ from the model: impl {i['ticks'][k - 1][1]!r}"
     elif op == "run":
         if Fraction(mo[1]) != frac(i["target"]):
             return f"getTargetJulianDate differs: impl {i['target']!r}"
@@ -303,6 +336,22 @@ def oracle(run: Run, c, impl):
         got = [e.replace("Z", "").replace(" ", "T") for e in i["epochs"]]
         if [g[:26] for g in got] != exp:
             fails.append(("legs:epochs", f"start {c['t0']}, step {dt} s, legs {c['legs']}: the stored epochs are not start + k*step for k = 0..{n_rows - 1} ({len(got)} rows, last {got[-1] if got else None})"))
+    elif op == "clock":
+        t0 = datetime.fromisoformat(c["t0"])
+        n = int(c["span"] // c["dt"])
+        exp = [(t0 + timedelta(seconds=k * c["dt"])).isoformat(timespec="microseconds") for k in range(n + 1)]
+        got = [r[0][:26] for r in i["rows"]]
+        if got != exp:
+            bad = next((k for k, (g, e) in enumerate(zip(got, exp)) if g != e), min(len(got), len(exp)))
+            fails.append(("clock:epochs", f"start {c['t0']} span {c['span']} s step {c['dt']} s: the clock recorded {len(got)} epochs, expected start + k*step for k = 0..{n}; "
+                          f"first difference at k={bad}: {got[bad] if bad < len(got) else None} vs {exp[bad] if bad < len(exp) else None}"))
+        for k, (iso, jd, tm) in enumerate(i["ticks"], start=1):
+            if iso != exp[k] or abs(tm - k * c["dt"]) > 1e-9:
+                fails.append(("clock:tick", f"start {c['t0']} step {c['dt']} s: tick {k} is at {iso} / {tm} s, expected {exp[k]}"))
+                break
+            if iso not in got:
+                fails.append(("clock:tick-not-recorded", f"start {c['t0']} span {c['span']} step {c['dt']}: the clock ticked to {iso}, which is not among the epochs it recorded"))
+                break
     elif op == "run":
         D, dt = c["D"], c["dt"]
         want = D // dt
